@@ -124,7 +124,7 @@ func (u *updater) upd(cur val.V, path []string, at []string) (val.V, error) {
 			return val.V{}, err
 		}
 		u.res.NewBlocks = append(u.res.NewBlocks, nb)
-		return val.MkLink(CidOf(nb)), nil
+		return val.MkLink(Relink(cur.S, nb)), nil
 	case val.Map:
 		out := val.V{K: val.Map, Ents: make([]val.Ent, 0, len(cur.Ents)+1)}
 		found := false
